@@ -315,7 +315,19 @@ def run(ctx):
         "the wall clock is strictly increasing between a writer's Start and any later Clear (Add rejects only token < cache token); a Clear "
         "whose wall-clock token EQUALS the Start of an earlier Add is covered by the model and the theorems but cannot be produced on the "
         "real cache (Clear reads time.Now() itself), so it is not in the differential tie",
-        "ConfigKey.HashCode is injective on the configs in play; UnixNano of Start is non-negative",
+        "ConfigKey.HashCode is injective on the configs in play; UnixNano of Start is non-negative; the cache keys themselves are 64-bit "
+        "hashes (clusterCache.Key, EndpointBuilder.Key, route.Cache.Key: hash.Sum64) and peerAuthVersion is a hash of UID.ResourceVersion "
+        "sums: KeyDetermines is stated for the hashed keys, i.e. it ASSUMES that no two inputs that generate differently collide (a "
+        "collision serves a stale or foreign value on a coherent schedule)",
+        "SDS authorisation: the harness runs with txds.DisableAuthorizationForSecret (every service account may read every secret), so "
+        "'a cached secret of an authorised proxy is served to an unauthorised one' (authorisation must precede the cache lookup) is NOT "
+        "judged; only the namespace rule of SecretGen is exercised",
+        "the `check` reader is passive (zero Start: its Adds are no-ops), only real writers (requests, pushes, dumps of connections that "
+        "have had a push) fill the cache. Known gaps of round 5, not detected by any stream: clusterCache.DependentConfigs naming only the "
+        "first rule of a merged DestinationRule (a merged rule dr-b + dr-b2 is generated and both are changed, yet the mutant exits 0 - "
+        "cause not found in the time given); no real registry event drives EDSUpdate/SvcUpdate (called directly); the real "
+        "PushQueue/doSendPushes is imitated with CopyMerge; Sidecar content changes, ServiceEntry deletion and Kubernetes Service changes "
+        "are not generated; interleave has 2 writers only",
         "lruCache.assertUnchanged (UNSAFE_PILOT_ENABLE_RUNTIME_ASSERTIONS, off in production) is not modelled; a probe observes it from "
         "outside the process on every run",
     ]
@@ -332,6 +344,7 @@ def run(ctx):
                        "ambient index stub (model.NoopAmbientIndexes + a mutable set of HBONE-capable addresses)")
     ctx.trusted.append("the FakeDiscoveryServer of /repo's own test support re-wired the way bootstrap wires istiod (one XdsCache shared by "
                        "server, generators, SecretGen and EndpointIndex; bootstrap.InitGenerators; production SecretGen with the secret handler)")
+    ctx.trusted.append("txds.DisableAuthorizationForSecret of /repo's test support (SubjectAccessReview of the fake kube clients always allows)")
     ctx.trusted.append("logical-to-wall-clock mapping of the harness (harness/c06/clock.go): only the order of tokens is observable by the cache")
     proved = ctx.lean_prove(THEOREMS)
     if not ctx.build_drv():
@@ -426,6 +439,13 @@ def replay(ctx, path):
         return run(ctx)
     if not (ctx.build_drv() and build_harness(ctx)):
         return
+    # a replay judges the replayed input only: leftovers of an earlier full run must not reach the oracle
+    for left in os.listdir(ctx.work):
+        if left.endswith(".gen.ops") or left.endswith(".gen.ops.verdict") or ".min." in left or left.endswith(".oracle.ops"):
+            try:
+                os.remove(os.path.join(ctx.work, left))
+            except OSError:
+                pass
     p = os.path.join(ctx.work, "replay.ops")
     with open(p, "w") as f:
         f.write("\n".join(ops) + "\n")
@@ -475,7 +495,9 @@ MANIFEST = {
                    "sequential schedules only, entry points through pilot/pkg/xds/zz_verif_c06.go). Goroutine races between the real writers "
                    "and initPushContext are only explored by a stress run with passive probes (statistical). Not reached by any stream: the "
                    "real ambient index's event path, mesh-networks changes, waypoint/ztunnel generators, delegate VirtualServices and service "
-                   "aliases, a Clear whose wall-clock token equals an earlier Add's Start. Assumed: strictly increasing wall clock, ConfigKey "
+                   "aliases, a Clear whose wall-clock token equals an earlier Add's Start, SDS authorisation-before-cache (authorisation is disabled in the "
+                   "harness), a merged DestinationRule's second rule in clusterCache.DependentConfigs (generated but the mutant is not detected), real "
+                   "registry events and the real PushQueue. Assumed: no collision of the 64-bit hashed cache keys / peerAuthVersion; strictly increasing wall clock, ConfigKey "
                    "hash injective. Eight defects found by these streams were fixed in /repo (SDS key vs mesh-default private key "
                    "provider; debug config dump pairing LastPushContext with time.Now(); F8: ProxyUpdate/AdsPushAll pairing the global "
                    "context with a clock read unsynchronised with cache invalidation + publication; EDS key and RDS key without the proxy's "
